@@ -30,6 +30,8 @@ from __future__ import absolute_import
 
 import re
 
+from . import BadReply
+
 __all__ = ['Reply', 'unknown_command', 'unknown_parameter', 'bad_sequence',
                     'bad_arguments', 'timed_out', 'unhandled_error',
                     'connection_failed', 'tls_failure', 'invalid_credentials']
@@ -153,7 +155,13 @@ class Reply(object):
         :param io: :class:`IO` object to use to receive the reply.
 
         """
-        self.code, self.message = io.recv_reply()
+        code, message = io.recv_reply()
+        try:
+            self.code = code
+        except ValueError:
+            # Three digits, but not a valid SMTP reply code.
+            raise BadReply(' '.join((code, message)).encode('utf-8'))
+        self.message = message
         self.address = io.address
 
     def send(self, io, flush=False):
